@@ -127,6 +127,30 @@ func ZzC14() {
 	} else {
 		zz.Assert(err == nil, "deletion without faults succeeds")
 		zz.Assert(len(calls) == nh*int(sc.to-sc.from), "handlers x heights calls in total")
+		if err == nil && zz.Param("FOLLOWUP", 0) == 1 {
+			// the registration outlives a deletion (also one that emptied the store): the chain continues and
+			// the next header deleted from the tail is announced to every handler again
+			before := len(calls)
+			armed = false
+			zz.Assert(s.Append(ctx, sc.chain[K], sc.chain[K+1]) == nil, "Append ok")
+			zz.Assert(s.Sync(ctx) == nil, "Sync ok")
+			tail, terr := s.Tail(ctx)
+			zz.Assert(terr == nil, "Tail of a non-empty store")
+			if terr == nil {
+				err3 := s.DeleteRange(ctx, tail.H, tail.H+1)
+				zz.Reach("followup-delete")
+				zz.Assert(err3 == nil, "a later tail-side deletion succeeds")
+				for hi := 0; hi < nh; hi++ {
+					n := 0
+					for _, c := range calls[before:] {
+						if c.handler == hi && c.height == tail.H && c.readable {
+							n++
+						}
+					}
+					zz.Assert(n == 1, "every registered handler is called exactly once for a header removed by a later DeleteRange")
+				}
+			}
+		}
 	}
 	if whole {
 		zz.Reach("whole-chain")
